@@ -912,10 +912,10 @@ theorem toBond_edgeOf_relB (ord : List Nat) (b : Bond) : toBond (edgeOf ord b) =
 theorem rtc_fix (g : Graph) (hw : WellFormed g) (es : List (Event × Nat)) (ord : List Nat)
     (h : walkRecL g = some (es, ord)) :
     ∃ g1, build? (es.map (·.1)) = some (.ok g1) ∧ Relabelled g ord g1 ∧ ord.Nodup ∧ (∀ x, x < g.length ↔ x ∈ ord) ∧
-      ∀ es' ord', walkRecL (g1.map normAtom) = some (es', ord') → es'.map (·.1) = (es.map (·.1)).map Event.norm := by
+      (∀ es' ord', walkRecL (g1.map normAtom) = some (es', ord') → es'.map (·.1) = (es.map (·.1)).map Event.norm) ∧
+      (∃ f r, comps (g1.map normAtom) f (List.range (g1.map normAtom).length) [] Pool.init = some r) := by
   obtain ⟨g1, hb1, hrel1, hnd, hcov⟩ := rtc g hw es ord h
   refine ⟨g1, hb1, hrel1, hnd, hcov, ?_⟩
-  intro es' ord' h'
   unfold walkRecL at h
   split at h
   · cases h
@@ -1009,6 +1009,8 @@ theorem rtc_fix (g : Graph) (hw : WellFormed g) (es : List (Event × Nat)) (ord 
     simp only [Nat.sub_zero, List.map_nil] at hlock
     have hinit : Pool.init.mapK (pos ord0) = Pool.init := rfl
     rw [hinit, ← List.range_eq_range'] at hlock
+    refine ⟨?_, ⟨_, _, hlock⟩⟩
+    intro es' ord' h'
     -- the traversal of the re-read graph, at its own fuel
     unfold walkRecL at h'
     split at h'
